@@ -104,6 +104,7 @@ class Gen:
         self.classes = []
         self.nf = 0
         self.col0 = False
+        self.wsline = False
 
     # ---- simple statements -------------------------------------------------------------------
     def simple(self, allow_err=True, in_func=False):
@@ -195,6 +196,10 @@ class Gen:
                 out.append(ind + txt + ('  # c' if r.random() < 0.08 else ''))
             if r.random() < 0.1:
                 out.append(ind + '# comment line')
+            # a physical line of nothing but white space inside a block: ignored (it is not the empty line that ends the statement)
+            if r.random() < 0.08:
+                out.append(r.choice([ind, '  ', ind + '  ', '\t', ' ']))
+                self.wsline = True
             # physical lines that start in column 0 although the block goes on: a comment, the tail of a bracketed expression, the tail of a
             # triple-quoted string.  None of them ends the block.
             if r.random() < 0.10:
@@ -298,9 +303,12 @@ class Gen:
 
     def stmt_compound(self):
         self.col0 = False
+        self.wsline = False
         L, tags, kind = self.compound_lines(0, '')
         if self.col0:
             tags = tags | {'column-0-line-inside-block'}
+        if self.wsline:
+            tags = tags | {'whitespace-only-line-inside-block'}
         if len(L) == 1:
             return {'lines': L, 'text': L[0] + '\n', 'tags': tags | {'one-line-compound'}, 'kind': 'one-line-compound'}
         if self.r.random() < 0.06 and '' not in L:
@@ -377,7 +385,7 @@ def build_session(cid, r):
     owner = []   # per physical line: (statement index or None, is_last_line, must_continue)
     for k, st in enumerate(stmts):
         if k > 4 and r.random() < 0.18:
-            filler = r.choice(['', '# a comment', '', '   # indented comment'])
+            filler = r.choice(['', '# a comment', '', '   # indented comment', '   ', '\t', ' \t '])
             lines.append(filler)
             owner.append((None, True, False))
         n = len(st['lines'])
@@ -583,7 +591,7 @@ def run(tier, rep):
     rep.nontrivial = nontriv
     rep.rule = ('seeded sessions of 9..15 statements (simple, expression statements with None / non-None values, semicolon lists, run-time errors, syntax errors, multi-line brackets, '
                 'triple-quoted strings with blank lines inside, backslash continuation, if/elif/else, for/while with else, try/except/else/finally, def, class, nested to depth 3, '
-                'one-line compounds, comments and blank lines between statements) fed one physical line at a time with a blank line after each multi-line statement. '
+                'one-line compounds, comments, blank and white-space-only lines between statements, white-space-only lines inside blocks) fed one physical line at a time with a blank line after each multi-line statement. '
                 'distinct non-trivial = distinct line sequences with >=3 statement kinds and >=1 multi-line statement')
     s0 = cases[3]
     rep.samples = [{'lines': s0['lines']}, {'lines': cases[len(cases) // 2]['lines']}]
